@@ -260,7 +260,7 @@ def exec_stmt(eng: Engine, fn: FnCtx, s: ast.stmt, st: State) -> Iterator[Outcom
 				if isinstance(obj.ty, TDict):
 					k = ev.coerce(ev.eval(t.slice), obj.ty.key)
 					ev.exit_if(z3.Not(z3.Select(obj.ty.dom(obj.term), k.term)), 'KeyError')
-					assign_target(ev, t.value, Val(obj.ty, obj.ty.mk(z3.Store(obj.ty.dom(obj.term), k.term, z3.BoolVal(False)), obj.ty.vals(obj.term))))
+					assign_target(ev, t.value, Val(obj.ty, obj.ty.mk(z3.Store(obj.ty.dom(obj.term), k.term, z3.BoolVal(False)), obj.ty.vals(obj.term), obj.ty.size(obj.term) - 1)))
 				elif isinstance(obj.ty, TList) and not isinstance(t.slice, ast.Slice):
 					idx = ev.eval(t.slice)
 					n = z3.Length(obj.term)
